@@ -527,7 +527,11 @@ class Key(metaclass=InlineDocstring):
                 self.public_point, curve=fastecdsa.curve.P256
             )
             r, s = bytes_to_int(decoded_signature[:32]), bytes_to_int(decoded_signature[32:])
-            if not fastecdsa.ecdsa.verify(sig=(r, s), msg=encoded_message, Q=pk, hashfunc=blake2b_32):  # type: ignore
+            try:
+                is_valid = fastecdsa.ecdsa.verify(sig=(r, s), msg=encoded_message, Q=pk, hashfunc=blake2b_32)  # type: ignore
+            except fastecdsa.ecdsa.EcdsaError as exc:  # r or s out of range
+                raise ValueError('Signature is invalid.') from exc
+            if not is_valid:
                 raise ValueError('Signature is invalid.')
         # BLS12-381
         elif self.curve == b'BL':
